@@ -147,10 +147,27 @@ Definition merge_defaults (acts : list action) (d : disr) : list action :=
   let o := filter (fun a => negb (is_block a)) acts in
   if existsb is_nonblock_disr acts then o else o ++ [ADisr d].
 
-(* RuleParser.applyParsedActions *)
+(* parseActions / appendRuleAction: a parsed action list holds at most ONE disruptive action - a later
+   one replaces the earlier one (in the earlier one's position; positions across action types are
+   immaterial in the per-type representation, the survivor is put last here) *)
+Fixpoint last_disr (acts : list action) (cur : option disr) : option disr :=
+  match acts with
+  | [] => cur
+  | ADisr d :: r => last_disr r (Some d)
+  | _ :: r => last_disr r cur
+  end.
+
+Definition norm_acts (acts : list action) : list action :=
+  match last_disr acts None with
+  | None => acts
+  | Some d => filter (fun a => negb (is_disr a)) acts ++ [ADisr d]
+  end.
+
+(* parseActions followed by RuleParser.applyParsedActions *)
 Definition apply_actions (dflt : option disr) (acts : list action) (l : clink) : clink :=
-  let l1 := fold_left meta_step acts l in
-  let acts' := match dflt with None => acts | Some d => merge_defaults acts d end in
+  let pa := norm_acts acts in
+  let l1 := fold_left meta_step pa l in
+  let acts' := match dflt with None => pa | Some d => merge_defaults pa d end in
   fold_left act_step acts' l1.
 
 (* Rule.ClearDisruptiveActions *)
@@ -550,6 +567,12 @@ Definition cf_run (rules : list crule) (rq : request) : txst :=
   | Some _ => s1
   | None => eval_phase rules 2 rq s1
   end.
+
+(* the rest of a transaction from a point inside phase [ph]: the remaining rules [rs] of that phase,
+   then the later phases [phs] over the whole rule list (none of them once interrupted) *)
+Definition cf_rest (rules rs : list crule) (ph : N) (phs : list N) (rq : request) (st : txst) : txst :=
+  fold_left (fun s p => match st_intr s with Some _ => s | None => eval_phase rules p rq s end)
+            phs (st_set_skip [] (eval_list rules rs ph rq st)).
 
 Definition cf_outcome (rules : list crule) (rq : request) : list (N * list md) * option intr :=
   let s := cf_run rules rq in (st_matched s, st_intr s).
